@@ -96,6 +96,7 @@ fn run() -> Result<i32, Harness> {
                 par::worker_loop(start, stride, n, |i| match id.as_str() {
                     "C03" => checks::c03::case_out(&cfg, i),
                     "C05" => checks::c05::case_out(&cfg, i),
+                    "C17lib" => checks::c17lib::case_out(&cfg, i),
                     _ => usage(),
                 })
             });
